@@ -265,6 +265,11 @@ def run_case(ctx, case):
         ctx.count("to_file_checks")
         import io
         fp = os.path.join(d, "saved_%d.mpt" % (case["rseed"] % 1000))
+        overwrite = case["rseed"] % 8 == 0
+        if overwrite:
+            # the path already holds an older, longer command file: saving replaces it
+            with open(fp, "w", encoding="utf-8") as fh:
+                fh.write(text + "\n# an older version of this model\nOld_%d = Copy(InFieldName = Gone)\n" % (case["rseed"] % 97) + "# padding\n" * 40)
         try:
             P.to_file(fp)
             with open(fp, encoding="utf-8") as fh:
@@ -272,7 +277,8 @@ def run_case(ctx, case):
             buf = io.StringIO()
             P.to_file(buf)
             if on_disk != text or buf.getvalue() != text:
-                ctx.fail("%s:to_file-differs-from-to_string" % builder, {"to_string": text[:300], "file": on_disk[:300], "file_object": buf.getvalue()[:300]})
+                ctx.fail("%s:to_file-differs-from-to_string%s" % (builder, ":path-held-an-older-file" if overwrite and on_disk.startswith(text) else ""),
+                         {"to_string": text[:300], "file": on_disk[:300], "file_tail": on_disk[-120:], "file_object": buf.getvalue()[:300]})
                 return
         except UnicodeError as e:
             ctx.dontcare("to_file under a non-UTF-8 locale: %s" % type(e).__name__)
